@@ -74,17 +74,17 @@ uselistorder_bb @f, %next, { 0 }
 //	"late"    the call that crosses limit accepts everything and still returns the error
 //	"short"   the call that crosses limit accepts the bytes up to limit and returns nil (contract-breaking short write)
 type c19writer struct {
-	mode       string
-	limit      int
-	chunk      int
-	data       []byte
-	accepted   int64
-	calls      int
-	failed     bool
-	afterFail  int
-	firstErr   error
-	shortDone  bool
-	strCalls   int
+	mode      string
+	limit     int
+	chunk     int
+	data      []byte
+	accepted  int64
+	calls     int
+	failed    bool
+	afterFail int
+	firstErr  error
+	shortDone bool
+	strCalls  int
 }
 
 var errC19first = errors.New("c19: injected first failure")
